@@ -466,6 +466,11 @@ func (eng *Engine) readAt(env *Env, obj ObjID, path string, t types.Type) AV {
 		k := cellKey{obj, path}
 		v.Src = &k
 	}
+	if oi := env.objs[obj]; oi != nil && !oi.Summary && !oi.ElemCell && (v.K == KNum || v.K == KSlice) {
+		v.Expr = fmt.Sprintf("c%d%s@%d", obj, path, env.ver[cellKey{obj, path}])
+	} else {
+		v.Expr = ""
+	}
 	return v
 }
 
@@ -498,6 +503,8 @@ func (eng *Engine) writeAt(env *Env, obj ObjID, path string, v AV, t types.Type)
 	}
 	put := func(k cellKey, nv AV, ft types.Type) {
 		nv.Src = nil
+		nv.Expr = ""
+		env.bump(k)
 		if weak {
 			old, ok := env.cells[k]
 			if !ok {
@@ -522,6 +529,7 @@ func (eng *Engine) writeAt(env *Env, obj ObjID, path string, v AV, t types.Type)
 					if old, ok := env.cells[k2]; ok {
 						j := &joiner{eng: eng, a: env, b: env, out: env, site: fmt.Sprintf("alias:%d%s", id, k.Path)}
 						env.cells[k2] = j.joinAV(old, nv, "a")
+						env.bump(k2)
 					}
 				}
 			}
@@ -1441,12 +1449,6 @@ func (eng *Engine) joinEnvsKeep(a, b *Env, site string, fn *ssa.Function) *Env {
 			live = append(live, v)
 		}
 	}
-	sort.Slice(live, func(i, j int) bool {
-		if live[i].Parent() != live[j].Parent() {
-			return live[i].Parent().String() < live[j].Parent().String()
-		}
-		return live[i].Name() < live[j].Name()
-	})
 	return eng.joinEnvs(a, b, site, live)
 }
 
@@ -1514,10 +1516,12 @@ func (eng *Engine) branch(t *ssa.If, env *Env) []edgeEnv {
 		ef := env
 		if eng.refine(et, t.Cond, true) {
 			et.vals[t.Cond] = boolAV(triT)
+			recordPure(et, c, true)
 			out = append(out, edgeEnv{b.Succs[0], et})
 		}
 		if eng.refine(ef, t.Cond, false) {
 			ef.vals[t.Cond] = boolAV(triF)
+			recordPure(ef, c, false)
 			out = append(out, edgeEnv{b.Succs[1], ef})
 		}
 	}
@@ -1576,7 +1580,7 @@ func (eng *Engine) refine(env *Env, cond ssa.Value, want bool) bool {
 					}
 					nv := AV{K: KNum, Set: []string{s}}
 					if v.Src != nil {
-						if cur, ok := env.cells[*v.Src]; ok && env.avKey(cur) == env.avKey(stripSrc(v)) {
+						if cur, ok := env.cells[*v.Src]; ok && env.avKey(bare(cur)) == env.avKey(bare(v)) {
 							if oi := env.objs[v.Src.Obj]; oi != nil && !oi.Summary && !oi.ElemCell {
 								env.cells[*v.Src] = nv
 							}
@@ -1597,7 +1601,7 @@ func (eng *Engine) refine(env *Env, cond ssa.Value, want bool) bool {
 					}
 					nv := AV{K: KNum, Set: rest}
 					if v.Src != nil {
-						if cur, ok := env.cells[*v.Src]; ok && env.avKey(cur) == env.avKey(stripSrc(v)) {
+						if cur, ok := env.cells[*v.Src]; ok && env.avKey(bare(cur)) == env.avKey(bare(v)) {
 							if oi := env.objs[v.Src.Obj]; oi != nil && !oi.Summary && !oi.ElemCell {
 								env.cells[*v.Src] = nv
 							}
@@ -1632,6 +1636,26 @@ func (eng *Engine) refine(env *Env, cond ssa.Value, want bool) bool {
 }
 
 func stripSrc(a AV) AV { a.Src = nil; return a }
+
+// bare: the value as it is stored in a cell (no load provenance)
+func bare(a AV) AV { a.Src = nil; a.Expr = ""; return a }
+
+// recordPure remembers the outcome of a pure comparison over the current versions of strong cells.
+func recordPure(env *Env, c AV, outcome bool) {
+	if c.K != KBool || c.Expr == "" {
+		return
+	}
+	e := c.Expr
+	for strings.HasPrefix(e, "!") {
+		e = e[1:]
+		outcome = !outcome
+	}
+	if outcome {
+		env.pure[e] = triT
+	} else {
+		env.pure[e] = triF
+	}
+}
 
 func containsStr(xs []string, s string) bool {
 	for _, x := range xs {
